@@ -461,6 +461,45 @@ def check_case(ctx, case):
                 d = compare_q(one, q, rtol=tol)
                 if d:
                     probs.append(('violation', 'oracle-' + path, d[:4]))
+    elif kind == 'array':
+        # array_mode path (pe.linalg.matmul / inv): one-shot propagation through all matrix entries
+        L = leaves
+        pick = case['pick']
+        A = np.array([[L[pick[0] % len(L)], L[pick[1] % len(L)]], [L[pick[2] % len(L)] * 1.5, L[pick[3] % len(L)] + 0.25]])
+        B = np.array([[L[pick[4] % len(L)], L[pick[5] % len(L)] * 0.5], [L[pick[6] % len(L)], L[pick[7] % len(L)]]])
+        qs = [Q.of(x) for x in list(A.ravel()) + list(B.ravel())]
+        av = np.array([[x.value for x in r] for r in A])
+        bv = np.array([[x.value for x in r] for r in B])
+        try:
+            P = pe.linalg.matmul(A, B)
+        except Exception as e:
+            probs.append(('violation', 'array-exception', repr(e)))
+            return probs
+        for i in range(2):
+            for k in range(2):
+                grads = [0.0] * 8
+                for j in range(2):
+                    grads[2 * i + j] += bv[j][k]
+                    grads[4 + 2 * j + k] += av[i][j]
+                q = combine(lambda v, i=i, k=k: sum(v[2 * i + j] * v[4 + 2 * j + k] for j in range(2)), grads, qs)
+                d = compare_q(P[i][k], q, rtol=1e-8)
+                if d:
+                    probs.append(('violation', 'array-matmul', ['entry (%d,%d)' % (i, k)] + d[:3]))
+        if abs(np.linalg.det(av)) > 0.2:
+            try:
+                W = pe.linalg.inv(A)
+            except Exception as e:
+                probs.append(('violation', 'array-exception', repr(e)))
+                return probs
+            wi = np.linalg.inv(av)
+            qa = qs[:4]
+            for i in range(2):
+                for k in range(2):
+                    grads = [-(wi[i][a] * wi[b][k]) for a in range(2) for b in range(2)]
+                    q = combine(lambda v, i=i, k=k: np.linalg.inv(np.array(v).reshape(2, 2))[i][k], grads, qa)
+                    d = compare_q(W[i][k], q, rtol=1e-8)
+                    if d:
+                        probs.append(('violation', 'array-inv', ['entry (%d,%d)' % (i, k)] + d[:3]))
     elif kind == 'cobs':
         a, b = leaves[0], leaves[1]
         c = leaves[2] if len(leaves) > 2 else leaves[0]
@@ -496,6 +535,8 @@ def gen_case(ctx):
             return {'kind': 'identity', 'leaves': leaves}
         if k < 0.2:
             return {'kind': 'cobs', 'leaves': leaves}
+        if k < 0.3:
+            return {'kind': 'array', 'leaves': leaves, 'pick': [rng.randrange(8) for _ in range(8)]}
         vals = [float(build_leaf(ld).value) for ld in leaves]
         for _ in range(30):
             t = gen_tree(rng, len(leaves), rng.randint(1, 4))
